@@ -40,7 +40,8 @@ type Op struct {
 	Kind  string `json:"kind"` // tidy upgradeall get
 	Path  int    `json:"path"` // index into universe paths (get)
 	Query string `json:"query"`
-	Ver   int    `json:"ver"` // index into the path's tagged versions for version-bearing queries
+	Spell int    `json:"spell,omitempty"` // 1, 2: the path is written with its default major spelled out (@v1, @v0)
+	Ver   int    `json:"ver"`             // index into the path's tagged versions for version-bearing queries
 }
 
 type Case struct {
@@ -132,6 +133,7 @@ type state struct {
 	res   *mvs.Resolver
 	ctx   context.Context
 	paths []string
+	lastQ string // query part of the last get
 }
 
 func (s *state) buildList(reqs map[string]project.RequirementConfig) (map[string]string, string) {
@@ -173,13 +175,19 @@ func (s *state) apply(op Op, reqs map[string]project.RequirementConfig) (map[str
 		}
 		if strings.Contains(q, "%t") { // tag ref
 			tags := s.u.TaggedVersions(p)
-			dir := strings.TrimPrefix(project.TrimPathVersion(p), mvssim.RepoAddr+"/")
+			dir := strings.TrimPrefix(project.TrimPathVersion(p), s.u.Addr()+"/")
 			q = strings.ReplaceAll(q, "%t", dir+"/"+tags[op.Ver%len(tags)])
 		}
-		full := p
-		if q != "" {
-			full = p + "@" + q
+		// the project may be spelled with its default major written out (p@v1, p@v0): the same project
+		spelled := p
+		if op.Spell > 0 && project.TrimPathVersion(p) == p {
+			spelled = p + []string{"@v1", "@v0"}[(op.Spell-1)%2]
 		}
+		full := spelled
+		if q != "" {
+			full = spelled + "@" + q
+		}
+		s.lastQ = q
 		r, err := mvs.Get(s.ctx, cfg, s.res, full)
 		return r, full, err
 	}
@@ -265,9 +273,11 @@ func exec(c Case) (v ev.Verdict) {
 		decided, wantErr := false, false
 		if op.Kind == "get" {
 			p = s.paths[op.Path%len(s.paths)]
-			q := full[len(p):]
-			q = strings.TrimPrefix(q, "@")
+			q := s.lastQ
 			v.Classes = append(v.Classes, "query:"+queryClass(op.Query))
+			if op.Spell > 0 && project.TrimPathVersion(p) == p {
+				v.Classes = append(v.Classes, "default-major-spelled-out")
+			}
 			resolved, decided, wantErr = refResolve(u, bl, p, q)
 		}
 		if err != nil {
@@ -510,7 +520,7 @@ func genCase(t *rapid.T) Case {
 		case 5:
 			c.Ops = append(c.Ops, Op{Kind: "upgradeall"})
 		default:
-			c.Ops = append(c.Ops, Op{Kind: "get", Path: rapid.IntRange(0, 12).Draw(t, "path"), Query: rapid.SampledFrom(queries).Draw(t, "query"), Ver: rapid.IntRange(0, 7).Draw(t, "ver")})
+			c.Ops = append(c.Ops, Op{Kind: "get", Path: rapid.IntRange(0, 12).Draw(t, "path"), Query: rapid.SampledFrom(queries).Draw(t, "query"), Ver: rapid.IntRange(0, 7).Draw(t, "ver"), Spell: rapid.SampledFrom([]int{0, 0, 0, 1, 0, 2}).Draw(t, "spell")})
 		}
 	}
 	_ = module.Version{}
